@@ -457,6 +457,20 @@ func (g *FnGen) instr(ins ssa.Instruction) {
 				g.localDefs[id.Name] = append(g.localDefs[id.Name], localDef{g.curBlock, g.curIdx, lv})
 			}
 		}
+		// an addressable struct-typed local (`b := T{...}` whose address escapes) is named in
+		// contracts through its address: `b.f` reads the field through that pointer
+		if id, ok := x.Expr.(*ast.Ident); ok && x.IsAddr && g.parent == nil {
+			if pt, ok := x.X.Type().Underlying().(*types.Pointer); ok {
+				if _, isStruct := pt.Elem().Underlying().(*types.Struct); isStruct {
+					if v, ok := g.vals[x.X]; ok {
+						if g.localDefs == nil {
+							g.localDefs = map[string][]localDef{}
+						}
+						g.localDefs[id.Name] = append(g.localDefs[id.Name], localDef{g.curBlock, g.curIdx, v})
+					}
+				}
+			}
+		}
 	case *ssa.Alloc:
 		g.doAlloc(x)
 	case *ssa.BinOp:
